@@ -250,13 +250,14 @@ inline Op opColPoint(const std::string& dev, int vs, const Limits& L) {
         if ((dev == "dup" || dev == "dup2") && (sh.pts.empty() || n == 0)) return false;
         if (dev == "nocol" && n == 0) return false;
         if (dev == "ragged" && n < 2) return false;
+        if (dev == "surplus" && (n < 2 || sh.pts.size() + 1 > L.maxPoints)) return false;
         return true;
     };
     o.apply = [dev, vs](World& w, const WSnap& s, CallInfo& ci) {
         ci.kind = K_COL_POINT; ci.dev = dev; Shape have = declaredShape(s.o); size_t n = s.o.frames.size();
         std::vector<std::string> names;
         auto fresh = [&](int k) { const char* cand[] = {"N", "M", "N2", "M2", "N3", "M3", "N4", "M4"}; int seen = 0; for (auto c : cand) { if (std::find(have.pts.begin(), have.pts.end(), c) == have.pts.end()) { if (seen == k) return std::string(c); ++seen; } } return std::string("N9"); };
-        if (dev == "ok" || dev == "fewer" || dev == "more" || dev == "none") names = {fresh(0)};
+        if (dev == "ok" || dev == "fewer" || dev == "more" || dev == "none" || dev == "surplus") names = {fresh(0)};
         else if (dev == "ok2") names = {fresh(0), fresh(1)};
         else if (dev == "dup") names = {have.pts.front()};
         else if (dev == "dup2") names = {fresh(0), have.pts.back()};
@@ -265,7 +266,9 @@ inline Op opColPoint(const std::string& dev, int vs, const Limits& L) {
         size_t cnt = n; if (dev == "fewer") cnt = n - 1; if (dev == "more") cnt = n + 1; if (dev == "none") cnt = 0;
         std::vector<Frame> fr;
         for (size_t f = 0; f < cnt; ++f) { Shape sh; sh.pts = names; if (dev == "ragged" && f + 1 == cnt) sh.pts.pop_back();   // the last frame brings only the first of the two new points
-            Frame x = buildFrame(sh, vs); for (size_t i = 0; i < sh.pts.size(); ++i) x.points_nonConst().point_nonConst(i).x(val(vs, i, 0) + 1000.0f * (float)(f + 1)); fr.push_back(x); }
+            Frame x = buildFrame(sh, vs); for (size_t i = 0; i < sh.pts.size(); ++i) x.points_nonConst().point_nonConst(i).x(val(vs, i, 0) + 1000.0f * (float)(f + 1));
+            if (dev == "surplus" && f + 1 == cnt) { Point extra; extra.name(fresh(1)); extra.x(4242.5f); x.points_nonConst().point(extra); }   // the LAST frame carries one point more than the column asked for by frame 0 (accepted, the surplus is not part of the column)
+            fr.push_back(x); }
         for (size_t f = 0; f < fr.size(); ++f) { Shape sh; sh.pts = names; if (dev == "ragged" && f + 1 == fr.size()) sh.pts.pop_back(); FrSnap in = intendedFrame(sh, vs); for (size_t i = 0; i < sh.pts.size(); ++i) in.pts[i].v[0] = fbits(val(vs, i, 0) + 1000.0f * (float)(f + 1)); ci.givenFrames.push_back(in); }
         w.c->point(fr);
     };
@@ -283,6 +286,7 @@ inline Op opColAnalog(const std::string& dev, int vs, const Limits& L) {
         if ((dev == "nocol" || dev == "sub_fewer" || dev == "sub_more") && n == 0) return false;
         if (dev == "sub_fewer" && s.o.h.subPerFrame == 0) return false;
         if (dev == "ragged" && (n < 2 || s.o.h.subPerFrame == 0)) return false;
+        if (dev == "surplus" && (n < 2 || s.o.h.subPerFrame == 0 || sh.chans.size() + 1 > L.maxChans)) return false;
         return true;
     };
     o.apply = [dev, vs](World& w, const WSnap& s, CallInfo& ci) {
@@ -302,6 +306,7 @@ inline Op opColAnalog(const std::string& dev, int vs, const Limits& L) {
             Shape sh; sh.chans = names; sh.nsub = nsub; if (dev == "ragged" && f + 1 == cnt) sh.chans.pop_back();
             Frame x = buildFrame(sh, vs);
             for (size_t sf = 0; sf < nsub; ++sf) for (size_t k = 0; k < sh.chans.size(); ++k) x.analogs_nonConst().subframe_nonConst(sf).channel_nonConst(k).data(aval(vs, sf, k) - 1000.0f * (float)(f + 1));
+            if (dev == "surplus" && f + 1 == cnt && nsub) { Channel extra; extra.name(fresh(1)); extra.data(-4242.5f); x.analogs_nonConst().subframe_nonConst(nsub - 1).channel(extra); }   // the last sub-frame of the LAST frame carries one channel more than the column
             fr.push_back(x);
         }
         for (size_t f = 0; f < fr.size(); ++f) { Shape sh; sh.chans = names; sh.nsub = nsub; if (dev == "ragged" && f + 1 == fr.size()) sh.chans.pop_back(); FrSnap in = intendedFrame(sh, vs); for (size_t sf = 0; sf < nsub; ++sf) for (size_t k = 0; k < sh.chans.size(); ++k) in.subs[sf][k].v = fbits(aval(vs, sf, k) - 1000.0f * (float)(f + 1)); ci.givenFrames.push_back(in); }
